@@ -419,6 +419,26 @@ func (mo *monitor) observe(c *raftsim.Cluster, op string, res raftsim.Result) {
 		}
 	case "ACC":
 		mo.ccs++
+	case "RR":
+		// --- C07/C18: after restoring a snapshot the replica's voters, non-voting members and
+		// witnesses are exactly the snapshot's membership (n.Mem was just set from it)
+		got := map[int]map[uint64]bool{0: {}, 1: {}, 2: {}}
+		for _, rm := range st.Remotes {
+			got[rm.Kind][rm.ID] = true
+		}
+		for kind, want := range map[int]map[uint64]bool{0: n.Mem.Voters, 1: n.Mem.NonVotings, 2: n.Mem.Witnesses} {
+			same := len(got[kind]) == len(want)
+			for k := range want {
+				if !got[kind][k] {
+					same = false
+				}
+			}
+			if !same {
+				for _, tag := range []string{"C07", "C18"} {
+					mo.v(tag, "replica %d restored a snapshot with %v of kind %d but now tracks %v", n.ID, sortedIDs(want), kind, sortedIDs(got[kind]))
+				}
+			}
+		}
 	case "SNAP":
 		mo.snapshots++
 	}
@@ -646,7 +666,7 @@ func runCases(a vh.Args) {
 				special = true
 			}
 		}
-		if (prop == "C17" || prop == "ALL") && len(mo.viol) == 0 && len(c.Nodes) > 0 {
+		if prop == "C17" && len(mo.viol) == 0 && len(c.Nodes) > 0 {
 			// progress monitor: fault-free fair schedule after the recorded fault prefix
 			d := &raftsim.Driver{C: c}
 			if why := d.FairPhase(fairRounds); why != "" {
